@@ -1158,6 +1158,20 @@ pub fn generate(rng: &mut Rng, cfg: &GenCfg) -> ModuleSet {
                 (format!("{st}Dangling"), AKind::Type, format!("{st}Dangling ::= SEQUENCE {{ a {st}Missing OPTIONAL, b BOOLEAN }}")),
                 (format!("{st}Sel"), AKind::Type, format!("{st}Sel ::= alt < {st}Nowhere")),
             ];
+            if g.rng.chance(1, 2) {
+                // user text of 2-, 3- and 4-byte characters that ends up inside the details of a
+                // warning (the value of a SEQUENCE OF <SEQUENCE type> cannot be rendered by the
+                // Rust backend; the warning quotes the value)
+                let glyphs = ["é", "ß", "Ж", "日", "語", "€", "𝄞", "😀", "a", "Z", "7", " "];
+                let mut elems = vec![];
+                for k in 0..(1 + g.rng.below(4)) {
+                    let len = g.rng.below(120) + 1;
+                    let t: String = (0..len).map(|_| glyphs[g.rng.below(glyphs.len())]).collect();
+                    elems.push(format!("{{ t \"{t}\", n {k} }}"));
+                }
+                assigns.push(Assign { name: format!("{st}Label"), kind: AKind::Type, text: format!("{st}Label ::= SEQUENCE {{ t UTF8String, n INTEGER }}"), refs: vec![], comment: String::new() });
+                assigns.push(Assign { name: format!("{lo}-labels"), kind: AKind::Value, text: format!("{lo}-labels SEQUENCE OF {st}Label ::= {{ {} }}", elems.join(", ")), refs: vec![format!("{st}Label")], comment: String::new() });
+            }
             for (name, kind, text) in pool {
                 // the value needs its type: keep the first two together
                 if g.rng.chance(1, 2) || (name.ends_with("-ids") && assigns.iter().any(|a: &Assign| a.name.ends_with("Ids"))) {
@@ -1197,6 +1211,60 @@ pub fn generate(rng: &mut Rng, cfg: &GenCfg) -> ModuleSet {
         });
     }
     let mut set = ModuleSet { modules };
+    if cfg.recursion_bias {
+        // explicit mutual-recursion pairs: two SEQUENCE / SET types of a module get, as their
+        // FIRST members, an OPTIONAL member of the other's type and (when the module has one) a
+        // member of a plain named type; the ordinary members follow. Types that another module
+        // imports are preferred, so that a cycle is entered from outside its module as well.
+        for mi in 0..set.modules.len() {
+            if !rng.chance(7, 8) {
+                continue;
+            }
+            let imported: Vec<String> = set
+                .modules
+                .iter()
+                .enumerate()
+                .filter(|(k, _)| *k != mi)
+                .flat_map(|(_, m)| m.imports.iter().filter(|i| i.from == set.modules[mi].name).flat_map(|i| i.symbols.iter().cloned()).collect::<Vec<_>>())
+                .collect();
+            let assigns = &mut set.modules[mi].assigns;
+            let structs: Vec<usize> = assigns
+                .iter()
+                .enumerate()
+                .filter(|(_, a)| a.kind == AKind::Type && (a.text.contains("::= SEQUENCE {\n") || a.text.contains("::= SET {\n")) && !a.text.contains("COMPONENTS OF"))
+                .map(|(i, _)| i)
+                .collect();
+            if structs.len() < 2 {
+                continue;
+            }
+            let wanted: Vec<usize> = structs.iter().copied().filter(|i| imported.contains(&assigns[*i].name)).collect();
+            let i = if !wanted.is_empty() && rng.chance(3, 4) { wanted[rng.below(wanted.len())] } else { structs[rng.below(structs.len())] };
+            let others: Vec<usize> = structs.iter().copied().filter(|x| *x != i).collect();
+            let j = others[rng.below(others.len())];
+            let plain: Vec<String> = assigns
+                .iter()
+                .filter(|a| a.kind == AKind::Type && a.refs.is_empty() && !a.text.contains('{') && !a.text.contains(" OF ") && !a.text.contains('<'))
+                .map(|a| a.name.clone())
+                .collect();
+            let (ni, nj) = (assigns[i].name.clone(), assigns[j].name.clone());
+            let mut member = |name: &str, target: &str, set: bool, tag: u32| {
+                let mut s = if set { format!("  {name} [{tag}] {target} OPTIONAL,\n") } else { format!("  {name} {target} OPTIONAL,\n") };
+                if !plain.is_empty() && rng.chance(2, 3) {
+                    let p = &plain[rng.below(plain.len())];
+                    s.push_str(&if set { format!("  {name}-w [{}] {p},\n", tag + 1) } else { format!("  {name}-w {p},\n") });
+                }
+                s
+            };
+            let is_set_i = assigns[i].text.contains("::= SET {\n");
+            let is_set_j = assigns[j].text.contains("::= SET {\n");
+            let mi_text = member("cyc-fwd", &nj, is_set_i, 90);
+            let mj_text = member("cyc-back", &ni, is_set_j, 92);
+            assigns[i].text = assigns[i].text.replacen("{\n", &format!("{{\n{mi_text}"), 1);
+            assigns[j].text = assigns[j].text.replacen("{\n", &format!("{{\n{mj_text}"), 1);
+            assigns[i].refs.push(nj);
+            assigns[j].refs.push(ni);
+        }
+    }
     if cfg.echo_inner_names && set.modules.len() >= 2 {
         // find `Type ::= SEQUENCE/SET {` with a first-level member that is itself an inline
         // SEQUENCE / SET / CHOICE / ENUMERATED, derive the inner type's name the way such names
